@@ -689,6 +689,7 @@ def _aggregate(eng, res):
                                       backend='z3', detail=''))
         a['instances'] += 1
         a['ms'] += ob.ms
+        a.setdefault('_backends', set()).add(ob.backend or 'z3')
         if ob.status == 'sat' and a['status'] != 'sat':
             a['status'] = 'sat'
             a['model'] = ob.model
@@ -700,6 +701,10 @@ def _aggregate(eng, res):
     res.obligations = sorted(agg.values(), key=lambda o: o['name'])
     for o in res.obligations:
         o['ms'] = round(o['ms'], 1)
+        # by which back end: the solver if any path instance needed it; otherwise the obligation was literally among the assumptions
+        # on every path ('syntactic') or a constant ('const')
+        bs = o.pop('_backends', {'z3'})
+        o['backend'] = 'z3' if ('z3' in bs or o['status'] != 'unsat') else ('syntactic' if 'syntactic' in bs else 'const')
     res.instances = len(eng.obs)
 
 
